@@ -182,6 +182,54 @@ def run(ctx):
                               'computed with %s' % (tol or 'no exact-membership primitive')))
     else:
         ctx.ok('R-EXACT', 'val2idx exact branch', where, 'mask from exact membership (%s)' % (exact[0] if isinstance(exact[0], str) else '=='))
+    # R-MASKKEEP: the mask put on by method='exact' (and clean='mask') must survive to the returned index
+    from .. import lints
+    ctx.rule('R-MASKKEEP', "no mask-dropping conversion between the masked fractional index and the returned index")
+    masked_at = None
+    for st in iter_stmts(fn.body):
+        if isinstance(st, ast.Assign) and 'np.ma.masked_where' in norm(st.value) and norm(st.targets[0]) == 'fidx':
+            masked_at = st
+    if masked_at is None:
+        raise AnalysisError("anchor vanished: masked_where of the exact method")
+    badm = []
+    for st in iter_stmts(fn.body):
+        if st.lineno > masked_at.lineno and isinstance(st, ast.Assign) and isinstance(st.targets[0], ast.Name) \
+                and st.targets[0].id in ('fidx', 'outfidx', 'outidx'):
+            d = lints.drops_mask(st.value)
+            if d is not None:
+                badm.append((st, d))
+    if badm:
+        for st, d in badm:
+            ctx.violation(Finding('R-MASKKEEP', RP, q, st, "%s strips the mask that method='exact' put on values that are not coordinates: they come back as ordinary indices" % norm(d)[:40]))
+    else:
+        ctx.ok('R-MASKKEEP', 'val2idx index path', where, 'fidx -> outfidx -> outidx without a mask-dropping conversion')
+    # R-PARAMDEAD: a parameter that is resolved to a default and then ignored
+    ctx.rule('R-PARAMDEAD', 'a resolved optional parameter is used afterwards (not silently replaced by another default)')
+    for name in FUNCS:
+        f6 = mod.func('PseudoNetCDFFile.' + name)
+        dead = lints.param_dead_stores(f6)
+        w6 = 'src/PseudoNetCDF/%s PseudoNetCDFFile.%s' % (RP, name)
+        if dead:
+            for st in dead:
+                ctx.violation(Finding('R-PARAMDEAD', RP, 'PseudoNetCDFFile.' + name, st, 'parameter %s is resolved here but never read afterwards: the call below uses a '
+                                      'different (default) value' % norm(st.targets[0])))
+        else:
+            ctx.ok('R-PARAMDEAD', name, w6, 'no dead re-assignment of a parameter')
+    # R-DOCDEFAULT: "None defaults to <name>" in a docstring is implemented as `if p is None: p = <name>`
+    ctx.rule('R-DOCDEFAULT', 'documented default of an optional parameter is the one the code applies')
+    for name in FUNCS:
+        f7 = mod.func('PseudoNetCDFFile.' + name)
+        doc = ast.get_docstring(f7) or ''
+        import re as _re
+        for m_ in _re.finditer(r'(\w+)\s*:[^\n]*\n\s+[^\n]*None defaults to (\w+)', doc):
+            par, dflt = m_.group(1), m_.group(2)
+            hit = [st for st in iter_stmts(f7.body) if isinstance(st, ast.If) and norm(st.test) == '%s is None' % par]
+            w7 = 'src/PseudoNetCDF/%s PseudoNetCDFFile.%s' % (RP, name)
+            if hit and any(norm(s2) == '%s = %s' % (par, dflt) for s2 in hit[0].body):
+                ctx.ok('R-DOCDEFAULT', '%s.%s' % (name, par), w7, 'None -> %s as documented' % dflt)
+            else:
+                ctx.violation(Finding('R-DOCDEFAULT', RP, 'PseudoNetCDFFile.' + name, hit[0] if hit else f7.body[0],
+                                      'the docstring says %s=None defaults to %s, the code applies %s' % (par, dflt, norm(hit[0].body[0]) if hit else 'nothing')))
     # R-TZDROP in date2num
     check_tzdrop(ctx, mod, 'PseudoNetCDFFile.date2num')
     ctx.floor('lookup functions', len(FUNCS), 4)
